@@ -2,7 +2,7 @@
 import srvprops
 
 PROP = "C12"
-THEOREMS = ["C12_model_smoke"]
+THEOREMS = ["C12_exactly_one_reply", "C12_any_frame", "C12_inflight_zero_drops", "C12_reply_then_close_witness"]
 
 
 def run(tier, replay=None):
